@@ -869,6 +869,229 @@ def _rsync_link_phase_ok():
     return "true" if ok else "false"
 
 
+# ---- C15 : what the shipped source imports and refers to ----------------------------------------------
+import builtins as _builtins
+import symtable as _symtable
+import textwrap as _textwrap
+
+
+class _StripAnn(ast.NodeTransformer):
+    """annotations are not evaluated (`from __future__ import annotations`), TYPE_CHECKING blocks never run"""
+
+    def visit_FunctionDef(self, n):
+        self.generic_visit(n)
+        n.returns = None
+        for a in n.args.args + n.args.kwonlyargs + n.args.posonlyargs + [x for x in (n.args.vararg, n.args.kwarg) if x]:
+            a.annotation = None
+        return n
+
+    visit_AsyncFunctionDef = visit_FunctionDef
+
+    def visit_AnnAssign(self, n):
+        self.generic_visit(n)
+        if n.value is None:
+            return None
+        return ast.copy_location(ast.Assign(targets=[n.target], value=n.value), n)
+
+    def visit_If(self, n):
+        self.generic_visit(n)
+        if _src(n.test) in ("TYPE_CHECKING", "typing.TYPE_CHECKING"):
+            return n.orelse or None
+        return n
+
+
+def _names_of(source: str, future_annotations: bool):
+    """(top-level definitions, names looked up in the global namespace at run time) by the compiler's symbol table"""
+    t = ast.parse(source)
+    if future_annotations:
+        t = _StripAnn().visit(t)
+        ast.fix_missing_locations(t)
+    st = _symtable.symtable(ast.unparse(t), "<unit>", "exec")
+    defs, uses = set(), set()
+    for sym in st.get_symbols():
+        if sym.is_assigned() or sym.is_imported() or sym.is_namespace():
+            defs.add(sym.get_name())
+        if sym.is_referenced():
+            uses.add(sym.get_name())
+
+    def rec(tab):
+        for ch in tab.get_children():
+            for sym in ch.get_symbols():
+                if sym.is_global() and sym.is_referenced():
+                    uses.add(sym.get_name())
+                if sym.is_declared_global() and sym.is_assigned():
+                    defs.add(sym.get_name())
+            rec(ch)
+
+    rec(st)
+    return defs, uses
+
+
+def _imports_of(source: str):
+    out = []
+
+    def walk(node, guard):
+        for ch in ast.iter_child_nodes(node):
+            g = guard
+            if isinstance(ch, (ast.FunctionDef, ast.AsyncFunctionDef, ast.Lambda)):
+                if g[0] in ("GTop",):
+                    g = ("GFunc",)
+            elif isinstance(ch, ast.ClassDef):
+                if ch.name.endswith("ExecModel") and g[0] == "GTop":
+                    g = ("GExecModel", ch.name)
+            elif isinstance(ch, ast.If):
+                t = _src(ch.test)
+                if t in ("TYPE_CHECKING", "typing.TYPE_CHECKING"):
+                    for b in ch.body:
+                        walk(ast.Module(body=[b], type_ignores=[]), ("GTypeChecking",))
+                    for b in ch.orelse:
+                        walk(ast.Module(body=[b], type_ignores=[]), guard)
+                    continue
+                if t in ("__name__ == '__main__'",) and g[0] == "GTop":
+                    for b in ch.body:
+                        walk(ast.Module(body=[b], type_ignores=[]), ("GMain",))
+                    for b in ch.orelse:
+                        walk(ast.Module(body=[b], type_ignores=[]), guard)
+                    continue
+            elif isinstance(ch, ast.Try):
+                catches = any(h.type is None or "ImportError" in _src(h.type) or _src(h.type) in ("Exception", "BaseException") for h in ch.handlers)
+                for b in ch.body:
+                    walk(ast.Module(body=[b], type_ignores=[]), ("GTry",) if catches and g[0] != "GTypeChecking" else g)
+                for h in ch.handlers:
+                    hg = ("GExcept",) if (h.type is not None and "ImportError" in _src(h.type)) and g[0] != "GTypeChecking" else g
+                    for b in h.body:
+                        walk(ast.Module(body=[b], type_ignores=[]), hg)
+                for b in ch.orelse + ch.finalbody:
+                    walk(ast.Module(body=[b], type_ignores=[]), g)
+                continue
+            if isinstance(ch, ast.Import):
+                for a in ch.names:
+                    out.append((a.name, g))
+            elif isinstance(ch, ast.ImportFrom):
+                out.append(("." * ch.level + (ch.module or ""), g))
+            walk(ch, g)
+
+    walk(ast.parse(source), ("GTop",))
+    return out
+
+
+def _sendexec_lines(fn_name):
+    """the literal source lines a bootstrap function passes to sendexec (format arguments replaced by 0)"""
+    f = find("gateway_bootstrap.py", fn_name)
+    lines, extra = [], []
+    for node in ast.walk(f):
+        if isinstance(node, ast.Call) and _src(node.func) == "sendexec":
+            for a in node.args[1:]:
+                if isinstance(a, ast.Constant) and isinstance(a.value, str):
+                    lines.append(a.value)
+                elif isinstance(a, ast.BinOp) and isinstance(a.op, ast.Mod) and isinstance(a.left, ast.Constant):
+                    lines.append(a.left.value.replace("%r", "0").replace("'%s-worker'", "'x'").replace("%s", "0"))
+                elif isinstance(a, ast.Call) and _src(a.func) == "inspect.getsource":
+                    extra.append(_src(a.args[0]))
+                else:
+                    raise LookupError("sendexec argument " + _src(a))
+    return lines, extra
+
+
+def _c15_units():
+    def read(fn):
+        with open(os.path.join(SRC, fn), encoding="utf-8") as fh:
+            return fh.read()
+
+    units = []
+    base_src = read("gateway_base.py")
+    base_defs, base_uses = _names_of(base_src, True)
+    units.append(("gateway_base.py", _imports_of(base_src), base_uses, base_defs, {"__name__", "__file__", "__doc__", "__builtins__"} & base_uses - {"__file__"}))
+    # bootstrap_exec: gateway_base source + the lines after it, exec'd in __main__
+    lines, extra = _sendexec_lines("bootstrap_exec")
+    if extra != ["gateway_base"]:
+        raise LookupError("bootstrap_exec ships " + repr(extra))
+    d, u = _names_of("\n".join(lines), False)
+    units.append(("bootstrap_exec lines", _imports_of("\n".join(lines)), u, base_defs | d, set()))
+    # bootstrap_socket: gateway_base + import socket + SocketIO class source + lines, exec'd by the socket server
+    lines, extra = _sendexec_lines("bootstrap_socket")
+    if extra != ["gateway_base", "SocketIO"]:
+        raise LookupError("bootstrap_socket ships " + repr(extra))
+    cls = find("gateway_socket.py", "SocketIO")
+    cls_src = _textwrap.dedent(ast.get_source_segment(read("gateway_socket.py"), cls))
+    cd, cu = _names_of(cls_src, True)
+    ld, lu = _names_of("\n".join(lines), False)
+    units.append(("bootstrap_socket: SocketIO class + lines", _imports_of(cls_src) + _imports_of("\n".join(lines)), cu | lu, base_defs | cd | ld, {"clientsock", "address"}))
+    # modules run by remote_exec(module) on a worker: __name__ == '__channelexec__', channel bound
+    for fn in ("gateway_io.py", "script/socketserver.py", "rsync_remote.py"):
+        src = read(fn)
+        d, u = _names_of(src, "from __future__ import annotations" in src)
+        pre = {"channel", "__name__"}
+        if fn == "script/socketserver.py":
+            # exec_ is defined by an exec() of a literal at import time
+            m = [n for n in ast.walk(ast.parse(src)) if isinstance(n, ast.Expr) and isinstance(n.value, ast.Call) and _src(n.value.func) == "exec" and isinstance(n.value.args[0], ast.Constant)]
+            for n in m:
+                d |= _names_of(n.value.args[0].value, False)[0]
+        units.append((fn, _imports_of(src), u, d, pre))
+    # inline sources
+    g = tree("gateway.py")
+    rin = find("gateway.py", "rinfo_source")
+    rsrc = _textwrap.dedent(ast.get_source_segment(read("gateway.py"), rin))
+    d, u = _names_of(rsrc, True)
+    units.append(("gateway.py:rinfo_source", _imports_of(rsrc), u, d, {"channel", "__name__"}))
+    mk = find("multi.py", "Group.makegateway")
+    snippets = [a.value for n in ast.walk(mk) if isinstance(n, ast.Call) and _src(n.func).endswith(".remote_exec") for a in n.args if isinstance(a, ast.Constant) and isinstance(a.value, str)]
+    for i, sn in enumerate(snippets):
+        sn = _textwrap.dedent(sn)
+        d, u = _names_of(sn, False)
+        units.append(("multi.py:makegateway snippet %d" % i, _imports_of(sn), u, d, {"channel", "__name__"}))
+    return units
+
+
+def _coq_guard(g):
+    return g[0] if len(g) == 1 else "(%s %s)" % (g[0], coq_string(g[1]))
+
+
+@fact("c15_units", "list Boot.bunit", "[Boot.Build_bunit \"unreadable\" [(\"?\", Boot.GTop)] [] [] []]")
+def _c15_units_fact():
+    out = []
+    for name, imps, uses, defs, pre in _c15_units():
+        imps = sorted(set(imps))
+        out.append("Boot.Build_bunit %s [%s] [%s] [%s] [%s]" % (
+            coq_string(name),
+            "; ".join("(%s, %s)" % (coq_string(m), ("Boot." + g[0]) if len(g) == 1 else "(Boot.%s %s)" % (g[0], coq_string(g[1]))) for m, g in imps),
+            "; ".join(coq_string(x) for x in sorted(uses)),
+            "; ".join(coq_string(x) for x in sorted(defs)),
+            "; ".join(coq_string(x) for x in sorted(pre))))
+    return "[" + ";\n  ".join(out) + "]"
+
+
+@fact("c15_stdlib", "list string", "[]")
+def _c15_stdlib():
+    """sys.stdlib_module_names of the interpreter that runs the translator, plus __future__"""
+    names = set(sys.stdlib_module_names) | {"__future__"}
+    return "[" + "; ".join(coq_string(x) for x in sorted(names)) + "]"
+
+
+@fact("c15_builtins", "list string", "[]")
+def _c15_builtins():
+    return "[" + "; ".join(coq_string(x) for x in sorted(dir(_builtins))) + "]"
+
+
+@fact("c15_bootline_ok", "bool", "false")
+def _c15_bootline_ok():
+    """the remote command evaluates exactly one line from stdin; sendexec writes repr(source) + newline"""
+    gi = tree("gateway_io.py")
+    line = None
+    for n in gi.body:
+        if isinstance(n, ast.Assign) and _src(n.targets[0]) == "popen_bootstrapline":
+            line = n.value.value
+    ok = line == "import sys;exec(eval(sys.stdin.readline()))"
+    se = _src(find("gateway_bootstrap.py", "sendexec"))
+    ok = ok and "source = '\\n'.join(sources)" in se and "io.write((repr(source) + '\\n').encode('utf-8'))" in se
+    pa = _src(find("gateway_io.py", "popen_args"))
+    ok = ok and "args.extend(['-c', popen_bootstrapline])" in pa
+    ok = ok and "remotecmd = f'{remotepython} -c \"{popen_bootstrapline}\"'" in _src(find("gateway_io.py", "ssh_args"))
+    bs = _src(find("gateway_bootstrap.py", "bootstrap"))
+    ok = ok and "if spec.via or spec.python:\n            bootstrap_exec(io, spec)\n        else:\n            bootstrap_import(io, spec)" in bs
+    return "true" if ok else "false"
+
+
 # ---- C18 : channel ids -------------------------------------------------------------------------------
 
 
@@ -1021,7 +1244,7 @@ def main() -> int:
         "(* GENERATED by tools/gen_facts.py from %s on every run -- do not edit *)" % SRC,
         "From Coq Require Import ZArith List String.",
         "Import ListNotations.",
-        "Require Import EV.model.Cfg EV.model.GroupIds EV.model.Ids.",
+        "Require Import EV.model.Cfg EV.model.GroupIds EV.model.Ids EV.model.Boot.",
         "Open Scope string_scope.",
         "",
     ]
